@@ -77,6 +77,13 @@ where
         if !self.visit_index(&index) {
             self.process_unvisited_index(index, handler)
         } else {
+            // An already visited edge (i.e. the search origin) must not
+            // break the chain of its node's remaining edges.
+            if index.index.is_edge() {
+                self.algorithm
+                    .expand(index, self.graph, self.storage, false);
+            }
+
             Ok(true)
         }
     }
